@@ -94,6 +94,7 @@ struct SlotOps {
     bool has_core = false;
     size_t obj_size = 0, obj_align = 0;
     void (*construct)(void *mem, const ModelField &) = nullptr;
+    void (*construct_short)(void *mem, const ModelField &) = nullptr; // without the array layer's configuration
     void (*default_construct)(void *mem) = nullptr;
     void (*destroy)(void *obj) = nullptr;
     void (*copy_construct)(void *mem, const void *src) = nullptr;
